@@ -96,7 +96,15 @@ fn c13_edges<A: Ord + Clone + std::fmt::Debug + 'static>(acc: &mut Acc, input: &
             return false;
         }
     }
-    for v in probes {
+    // lookups must not depend on earlier lookups on the same object: the probes are asked in ascending order, then
+    // descending, then in a scrambled order (same Edges / Bins objects throughout)
+    let mut order: Vec<usize> = (0..probes.len()).collect();
+    order.extend((0..probes.len()).rev());
+    let pl = probes.len().max(1);
+    order.extend((0..probes.len()).map(|i| (i * 7 + 3) % pl));
+    order.extend((0..probes.len()).map(|i| (i * 5 + 1) % pl));
+    for &pi in &order {
+        let v = &probes[pi];
         acc.eval();
         let want = model_bin(&model, v);
         let io = match catch(|| edges.indices_of(v)) {
@@ -312,6 +320,52 @@ fn c11_history<A: Ord + Clone + std::fmt::Debug + Elem>(acc: &mut Acc, axes_in: 
                 }
             }
             acc.count(&format!("matrix_layout_{}", lay.class()));
+        }
+    }
+    true
+}
+
+/// matrix form only, against the linear-scan model (for matrices with thousands of rows)
+fn c11_matrix_only(acc: &mut Acc, axes_in: &[Vec<i32>], obs: &[Vec<i32>], rng: &mut Rng) -> bool {
+    let nd = axes_in.len();
+    let models: Vec<Vec<i32>> = axes_in.iter().map(|e| e.iter().cloned().collect::<BTreeSet<_>>().into_iter().collect()).collect();
+    let shape: Vec<usize> = models.iter().map(|m| m.len().saturating_sub(1)).collect();
+    let mut model: BTreeMap<Vec<usize>, usize> = BTreeMap::new();
+    for o in obs {
+        if let Some(c) = (0..nd).map(|a| model_bin(&models[a], &o[a])).collect::<Option<Vec<usize>>>() {
+            *model.entry(c).or_insert(0) += 1;
+        }
+    }
+    let n = obs.len();
+    let flat: Vec<i32> = obs.iter().flat_map(|o| o.iter().cloned()).collect();
+    for li in 0..3 {
+        let lay = match li {
+            0 => Layout::canonical(2),
+            1 => Layout::fortran(2),
+            _ => Layout::random(2, rng),
+        };
+        let e = Embedded::new(&[n, nd], &flat, lay.clone());
+        let v = e.view().into_dimensionality::<Ix2>().unwrap();
+        acc.eval();
+        let grid = Grid::from(axes_in.iter().map(|e| Bins::new(Edges::from(e.clone()))).collect::<Vec<_>>());
+        let h = match catch(|| v.histogram(grid)) {
+            Ok(h) => h,
+            Err(m) => {
+                acc.violation("no_panic", None, J::obj(vec![("what", J::s(format!("histogram() of a {} x {} matrix panicked: {}", n, nd, m)))]));
+                return false;
+            }
+        };
+        let counts = h.counts();
+        if counts.shape() != &shape[..] {
+            acc.violation("shape", None, J::obj(vec![("what", J::s(format!("counts shape {:?}, grid shape {:?}", counts.shape(), shape)))]));
+            return false;
+        }
+        for (idx, &cnt) in counts.indexed_iter() {
+            let key: Vec<usize> = idx.slice().to_vec();
+            if cnt != *model.get(&key).unwrap_or(&0) {
+                acc.violation("matrix_counts", None, J::obj(vec![("rows", J::u(n)), ("axes_edges", J::s(format!("{:?} edges per axis", axes_in.iter().map(|a| a.len()).collect::<Vec<_>>()))), ("layout", lay.to_json()), ("what", J::s(format!("count at {:?} is {}, model says {}", key, cnt, model.get(&key).unwrap_or(&0))))]));
+                return false;
+            }
         }
     }
     true
@@ -789,6 +843,45 @@ fn main() {
             }
         });
         r.section("grids", r.args.n(5_000, 200_000), |_k, rng, acc| c13_grid(rng, acc));
+        // long edge collections: every ordered PAIR of probes on one object (the second answer must not depend on the first)
+        r.section("long_edges_pairs", r.args.n(300, 10_000), |_k, rng, acc| {
+            let many = rng.chance(0.2);
+            let ne = 5 + rng.below(if many { 200 } else { 30 });
+            let gap = 1 + rng.below(3) as i32;
+            let mut input: Vec<i32> = (0..ne as i32).map(|i| i * 2 * gap).collect();
+            if rng.chance(0.5) {
+                rng.shuffle(&mut input);
+            }
+            if rng.chance(0.3) {
+                let d = input[rng.below(ne)];
+                input.push(d);
+            }
+            let model: Vec<i32> = input.iter().cloned().collect::<BTreeSet<i32>>().into_iter().collect();
+            let bins = Bins::new(Edges::from(input.clone()));
+            let edges = Edges::from(input.clone());
+            // probes: below, on edges, strictly inside bins, above
+            let mut probes: Vec<i32> = vec![-1, model[0], *model.last().unwrap(), *model.last().unwrap() + 1];
+            for _ in 0..24 {
+                let b = rng.below(model.len());
+                probes.push(model[b] + if rng.chance(0.6) { 1 } else { 0 });
+            }
+            for a in 0..probes.len() {
+                for b in 0..probes.len() {
+                    acc.eval();
+                    let _ = bins.index_of(&probes[a]);
+                    let _ = edges.indices_of(&probes[a]);
+                    let want = model_bin(&model, &probes[b]);
+                    let got = bins.index_of(&probes[b]);
+                    let got2 = edges.indices_of(&probes[b]);
+                    if got != want || got2 != want.map(|i| (i, i + 1)) {
+                        acc.violation("lookup_history", None, J::obj(vec![("edges", J::s(format!("{} edges, spacing {}", model.len(), 2 * gap))), ("first_probe", J::I(probes[a] as i128)), ("second_probe", J::I(probes[b] as i128)), ("what", J::s(format!("after looking up {}, index_of({}) = {:?} / indices_of = {:?}, expected bin {:?}", probes[a], probes[b], got, got2, want)))]));
+                        return;
+                    }
+                }
+            }
+            acc.nontrivial(h64(&input));
+            acc.count("edge_sets_with_all_probe_pairs");
+        });
     }
 
     if prop == "C11" {
@@ -837,6 +930,48 @@ fn main() {
             }
             acc.nontrivial(h64(&(k % 2, &axes, &obs)));
             acc.count(&format!("axes_{}", nd));
+        });
+    }
+
+    if prop == "C11" {
+        // axes with many bins (up to 200) and observation matrices with more than 4096 rows
+        r.section("long_axes_tall_matrices", r.args.n(120, 4_000), |k, rng, acc| {
+            let nd = 1 + rng.below(2);
+            let mut axes: Vec<Vec<i32>> = vec![];
+            for a in 0..nd {
+                let ne = if a == 0 { 60 + rng.below(150) } else { rng.below(5) };
+                let mut e: Vec<i32> = (0..ne as i32).map(|i| i * 2).collect();
+                if rng.chance(0.5) {
+                    rng.shuffle(&mut e);
+                }
+                axes.push(e);
+            }
+            let tall = k % 4 == 0;
+            let len = if tall { *rng.pick(&[4097usize, 5000, 8193, 4096, 9000]) } else { 50 + rng.below(300) };
+            let hi0 = axes[0].len() as i64 * 2 + 2;
+            let mut obs: Vec<Vec<i32>> = Vec::with_capacity(len);
+            let mut cur = rng.range(0, hi0);
+            for _ in 0..len {
+                // local moves (neighbouring bins), far jumps and rejected points
+                cur = match rng.below(6) {
+                    0 => rng.range(-3, hi0),
+                    1 => -1,
+                    _ => (cur + rng.range(-40, 40)).clamp(-2, hi0),
+                };
+                let mut o = vec![cur as i32];
+                for _ in 1..nd {
+                    o.push(rng.range(-1, 9) as i32);
+                }
+                obs.push(o);
+            }
+            if tall {
+                // matrix form only (the per-insert comparison of a 9000-insert history is covered by shorter ones)
+                c11_matrix_only(acc, &axes, &obs, rng);
+            } else {
+                c11_history(acc, &axes, &obs, "i32", true, rng);
+            }
+            acc.nontrivial(h64(&(&axes, obs.len(), &obs[..obs.len().min(50)])));
+            acc.count(if tall { "tall_matrices" } else { "long_axis_histories" });
         });
     }
 
